@@ -549,7 +549,12 @@ func (g *Gen) draftEVM(kind string, h int64, sh *MState, P *DParams, price *big.
 		if g.rng.Intn(12) == 0 {
 			d.tx.Gas = 21000 + uint64(g.rng.Intn(4000)) // under-gassed
 			ch.fails = true
-		} else if g.rng.Intn(20) == 0 {
+		} else if lo := P.MinTrxGas; lo < 21000 && g.rng.Intn(12) == 0 {
+			// admitted by the fee rule, refused by the EVM before execution starts (below intrinsic gas)
+			d.tx.Gas = lo + uint64(g.rng.Intn(int(21000-lo)))
+			ch.fails = true
+			ch.name = "below-intrinsic-gas:" + ch.name
+		} else if g.rng.Intn(12) == 0 {
 			// more gas than a whole block may use: refused in every block, however long the node has been running
 			huge := uint64(25_000_001 + g.rng.Intn(40_000_000))
 			if a := sh.Accounts[k.A()]; a != nil && new(big.Int).Mul(new(big.Int).SetUint64(huge*2), price).Cmp(a.Bal) < 0 {
